@@ -484,7 +484,7 @@ pub fn eval_io_case(t: &[&str]) -> Option<String> {
         "SB" | "TM" => {
             let (rs, ws) = split_at("/", &t[3..]);
             let timing = t[0] == "TM";
-            let trials = if timing { 3 } else { 1 };
+            let trials = if timing { 5 } else { 1 };
             let mut min_send = Duration::from_secs(3600);
             let mut min_recv = Duration::from_secs(3600);
             let mut min_pre = Duration::from_secs(3600);
